@@ -130,6 +130,11 @@ func (p *simProc) Process(ctx context.Context, recs []opencdc.Record) []sdk.Proc
 	if h := w.hostileProcResult(p, recs, d); h != nil {
 		return h
 	}
+	if p.sys.cfg.Stuck {
+		// never makes progress: every record is left to be retried
+		w.log(Event{Kind: "PROC_PROCESS", Ent: p.sys.cfg.ID, Inc: p.inc, N: p.gen, Note: "stuck"})
+		return make([]sdk.ProcessedRecord, len(recs))
+	}
 	rev := p.settings["rev"]
 	n := len(recs)
 	// short result: only the first k records are answered, the rest must be retried
